@@ -2,7 +2,7 @@
 # tools/refactor_eval.sh [-j N] <dir-with-patch.diff> <label> <PID>...
 # false-alarm evaluation: applies a behaviour-preserving patch to a SCRATCH copy of /repo HEAD and runs the named checks
 # against it (VERIF_REPO / PYTHONPATH); expected: every check exits 0.  Prints one line per check.
-D=$1; L=$2; shift 2
+D=$(readlink -f "$1"); L=$2; shift 2
 V=$(cd "$(dirname "$0")/.." && pwd)
 S=/tmp/re/$L
 rm -rf $S; mkdir -p $S/repo $S/verif
